@@ -435,6 +435,33 @@ def c10k(ctx, tu):
     return n
 
 
+def c10k_control(ctx):
+    """C10.k expects zero instances on a healthy tree: a synthetic matcher function WITH a mutable static must be
+    reported by the very same rule function on every run, otherwise the rule is blind (analysis broken)."""
+    if getattr(ctx, "_c10k_control_done", False):
+        return
+    ctx._c10k_control_done = True
+    from engine.facts import Fn, INCLUDE
+    from engine.selfcheck import _TU
+    loc = INCLUDE + "/trompeloeil/matcher/control.hpp:1:1"
+    rec = {"k": "fn", "id": 0, "q": "trompeloeil::control_matcher", "loc": loc, "pat": loc, "std": False, "kind": "function",
+           "params": [], "entry": 1, "exit": 0,
+           "blocks": [{"id": 1, "ev": [{"e": "decl", "var": 0, "name": "cache", "type": "std::map<int, int>", "static": True,
+                                        "loc": loc}], "succ": [0]},
+                      {"id": 0, "ev": [], "succ": []}]}
+    tu = _TU([rec])
+
+    class Probe:
+        bad = 0
+
+        def ob(self, rule, what, ok, **kw):
+            if ok is False and rule == "C10.k":
+                Probe.bad += 1
+    c10k(Probe(), tu)
+    ctx.ob("C10.k.control", "positive control (a matcher function with a mutable static)", True if Probe.bad == 1 else None,
+           pattern="verif:rules/C10.py", detail="" if Probe.bad == 1 else "the rule does not see a mutable static in matcher code")
+
+
 def run(ctx):
     ctx.explanation = (
         "Every scalar matcher is a single return expression (or a fold); its truth table is obtained by "
@@ -462,6 +489,7 @@ def run(ctx):
         c10h(ctx, tu)
         nj = c10j(ctx, tu)
         c10k(ctx, tu)
+        c10k_control(ctx)
         if tu.name.startswith("match") and nj < 4:
             ctx.ob("C10.j", "combinators with lvalue operands", None, unit=tu.name,
                    detail="only %d instantiation(s) with an lvalue operand in %s" % (nj, tu.name))
